@@ -157,6 +157,9 @@ func runC06(c *Ctx) {
 		if g == f {
 			continue
 		}
+		if k.isCbHelper(g) != nil {
+			continue // a synchronous helper of the loop (one call site): its calls are the loop's
+		}
 		for _, i := range allInstrs(g) {
 			if ci, ok := i.(ssa.CallInstruction); ok && isHandlerCall(ci) && w.pkgOfFn(g) == w.pkg("") {
 				c.bad("one-consumer", relName(g)+"#handler-call", ci.Pos(), "a handler is invoked outside the callback loop")
@@ -220,29 +223,43 @@ func runC06(c *Ctx) {
 	}
 	isEvSerial := func(v ssa.Value) bool {
 		b, ok := loadOfTypeField(v, ".newConfigEvent", "serial")
-		return ok && b == newArm.ev
+		return ok && k.cbUp(b) == newArm.ev
 	}
 	isEvNew := func(v ssa.Value) bool {
 		b, ok := loadOfTypeField(v, ".newConfigEvent", "newConfig")
-		return ok && b == newArm.ev
+		return ok && k.cbUp(b) == newArm.ev
 	}
 	isEvOld := func(v ssa.Value) bool {
 		b, ok := loadOfTypeField(v, ".newConfigEvent", "oldConfig")
-		return ok && b == newArm.ev
+		return ok && k.cbUp(b) == newArm.ev
 	}
 	isLastSerial := func(v ssa.Value) bool { return phiFed(v, isEvSerial) }
 	isLastVersion := func(v ssa.Value) bool { return phiFed(v, isEvNew) }
 
 	// ---- handler calls, classified by arm ------------------------------------------
+	type hcall struct {
+		ci  *ssa.Call
+		arm *ssa.BasicBlock // the block of the loop the call belongs to (its own, or the helper's call site)
+	}
+	var hcalls []hcall
 	for _, i := range allInstrs(f) {
-		ci, ok := i.(*ssa.Call)
-		if !ok || !isHandlerCall(ci) {
-			continue
+		if ci, ok := i.(*ssa.Call); ok && isHandlerCall(ci) {
+			hcalls = append(hcalls, hcall{ci, ci.Block()})
 		}
+	}
+	for _, h := range k.cbHelpers() {
+		for _, i := range allInstrs(h.fn) {
+			if ci, ok := i.(*ssa.Call); ok && isHandlerCall(ci) {
+				hcalls = append(hcalls, hcall{ci, h.site.Block()})
+			}
+		}
+	}
+	for _, hc := range hcalls {
+		ci := hc.ci
 		args := ci.Call.Args
 		callee := ci.Call.Value
 		switch {
-		case inArm(newArm, ci.Block()):
+		case inArm(newArm, hc.arm):
 			if _, isHandle := loadOfTypeField(callee, ".userCallbackHandle", "cb"); isHandle {
 				// skip-predicate: from the block that loads the handle element
 				hbase, _ := loadOfTypeField(callee, ".userCallbackHandle", "cb")
@@ -300,7 +317,7 @@ func runC06(c *Ctx) {
 				c.check(okArgs && before, "call-args", relName(f)+"#global-args", ci.Pos(),
 					"OnNewConfig called with (event.oldConfig, event.newConfig)", "OnNewConfig not called with (event.oldConfig, event.newConfig)")
 			}
-		case inArm(regArm, ci.Block()):
+		case inArm(regArm, hc.arm):
 			// catch-up
 			pb := &predBuilder{name: func(v ssa.Value) string {
 				if b, ok := loadOfTypeField(v, ".CfgSerial", "cfg"); ok {
@@ -603,6 +620,30 @@ func c06Unregister(c *Ctx, k *core, a *arm) {
 // c06OrderedFilter: v is the loop-carried `removed` list built as
 // make(..) ; for i := range old { if handle == old[i] {continue}; removed = append(removed, old[i]) }.
 func c06OrderedFilter(v ssa.Value, old *ssa.Phi, a *arm) bool {
+	isH := func(y ssa.Value) bool {
+		bb, ok := loadOfTypeField(y, ".userCallbackUnregister", "handle")
+		return ok && bb == a.ev
+	}
+	// the filter may live in a helper: withoutHandle(oldList, e.handle) whose result is the in-order filter of
+	// its first parameter by identity with its second
+	if call, ok := v.(*ssa.Call); ok {
+		if h := staticCallee(call); h != nil && len(h.Blocks) > 0 && len(h.Params) == 2 && len(call.Call.Args) == 2 {
+			if call.Call.Args[0] != ssa.Value(old) || !isH(call.Call.Args[1]) {
+				return false
+			}
+			rets := returnsOf(h)
+			if len(rets) != 1 || len(retVals(rets[0])) != 1 {
+				return false
+			}
+			hp := ssa.Value(h.Params[1])
+			return c06OrderedFilterG(retVals(rets[0])[0], h.Params[0], func(y ssa.Value) bool { return y == hp })
+		}
+	}
+	return c06OrderedFilterG(v, old, isH)
+}
+
+// c06OrderedFilterG: v is a list built as make(..); for i := range old { if handle == old[i] { continue }; v = append(v, old[i]) }.
+func c06OrderedFilterG(v ssa.Value, old ssa.Value, isH func(ssa.Value) bool) bool {
 	ph, ok := v.(*ssa.Phi)
 	if !ok {
 		return false
@@ -629,7 +670,7 @@ func c06OrderedFilter(v ssa.Value, old *ssa.Phi, a *arm) bool {
 				return false
 			}
 			ia, ok := ld.X.(*ssa.IndexAddr)
-			if !ok || ia.X != ssa.Value(old) {
+			if !ok || ia.X != old {
 				return false
 			}
 			// index: forward range induction (phi + 1)
@@ -642,10 +683,6 @@ func c06OrderedFilter(v ssa.Value, old *ssa.Phi, a *arm) bool {
 				b, ok := ec.Cond.(*ssa.BinOp)
 				if !ok {
 					continue
-				}
-				isH := func(y ssa.Value) bool {
-					bb, ok := loadOfTypeField(y, ".userCallbackUnregister", "handle")
-					return ok && bb == a.ev
 				}
 				isE := func(y ssa.Value) bool { return y == elem || sameValue(y, elem) }
 				if (isH(b.X) && isE(b.Y)) || (isH(b.Y) && isE(b.X)) {
